@@ -45,8 +45,42 @@ pub trait Prop: Sync {
   fn serial(&self) -> bool {
     false
   }
+  /// run every case in a child process of its own: for properties whose inputs can make the
+  /// code under test abort the process (allocation failure), which `catch_unwind` cannot catch
+  fn isolate(&self) -> bool {
+    false
+  }
   /// called once after all cases (e.g. exhaustive flag, notes)
   fn finish(&self, _tier: Tier, _s: &mut Summary) {}
+}
+
+/// run one case in a child `slh` (same binary, `--replay` of a one-case file)
+fn run_isolated(id: &str, tier: Tier, seed: u64, k: usize, case: &Value, s: &mut Summary) {
+  let dir = util::scratch();
+  let cf = dir.path().join(format!("case{k}.json"));
+  let of = dir.path().join(format!("out{k}.json"));
+  std::fs::write(&cf, serde_json::to_string(&serde_json::json!({"case": case})).unwrap()).unwrap();
+  let exe = std::env::current_exe().expect("current exe");
+  let out = std::process::Command::new(exe)
+    .args([id, "--tier", if tier == Tier::Quick { "quick" } else { "thorough" }, "--seed", &seed.to_string(), "--replay"])
+    .arg(&cf)
+    .arg("--out")
+    .arg(&of)
+    .env("SLH_CHILD", "1")
+    .output();
+  match out {
+    Ok(o) if o.status.success() => match std::fs::read_to_string(&of).ok().and_then(|t| serde_json::from_str::<Value>(&t).ok()) {
+      Some(j) => s.absorb_json(&j),
+      None => s.fail("harness.child-no-summary", "child process wrote no summary", case, serde_json::json!(null)),
+    },
+    Ok(o) => {
+      let err = String::from_utf8_lossy(&o.stderr);
+      let tail: String = err.lines().filter(|l| !l.contains("broken pipe")).take(6).collect::<Vec<_>>().join(" | ");
+      s.cases += 1;
+      s.fail("process-abort", "the process running this case was killed (abort / allocation failure in the code under test)", case, serde_json::json!({"status": format!("{:?}", o.status), "stderr": tail}));
+    }
+    Err(e) => s.fail("harness.child-spawn", "cannot start child process", case, serde_json::json!(e.to_string())),
+  }
 }
 
 fn main() {
@@ -134,6 +168,7 @@ fn main() {
   } else {
     std::env::var("VERIF_JOBS").ok().and_then(|s| s.parse().ok()).unwrap_or(16usize).min(cases.len().max(1))
   };
+  let isolate = prop.isolate() && std::env::var("SLH_CHILD").is_err();
   let next = std::sync::atomic::AtomicUsize::new(0);
   let total = std::sync::Mutex::new(Summary::default());
   std::thread::scope(|sc| {
@@ -146,7 +181,11 @@ fn main() {
           if k >= cases.len() {
             break;
           }
-          prop.run_case(&mut drv, &cases[k], &mut s);
+          if isolate {
+            run_isolated(&id, tier, seed, k, &cases[k], &mut s);
+          } else {
+            prop.run_case(&mut drv, &cases[k], &mut s);
+          }
         }
         s.model_requests += drv.requests;
         total.lock().unwrap().merge(s);
